@@ -225,9 +225,12 @@ def emit():
             f'  [f |-> {q(f)}, r |-> {q(r)}, p |-> {q(p)}, g |-> {q(g)}, n |-> {q(n)}, k |-> {q(k)}, '
             f'd |-> {seq(d)}, ix |-> {ix}, tr |-> {q(tr)}, c |-> {q(c)}]'
         )
+    mapped = {(f, r, p) for f, r, p, *_ in special} | {tuple(k) for k, locs, _, _ in rows if locs}
+    ign = sorted({tuple(k) for k, locs, _, _ in rows if not locs} - mapped)
+    ign_txt = "Ignored == {\n" + ",\n".join(f"  <<{q(f)}, {q(r)}, {q(p)}>>" for f, r, p in ign) + "\n}\n\n"
     head = open("/verif/tools/outmap_head.tla").read()
     with open("/verif/spec/OutMap.tla", "w") as fh:
-        fh.write(head + "OutMap == <<\n" + ",\n".join(lines) + "\n>>\n\n" + open("/verif/tools/outmap_tail.tla").read())
+        fh.write(head + "OutMap == <<\n" + ",\n".join(lines) + "\n>>\n\n" + ign_txt + open("/verif/tools/outmap_tail.tla").read())
     print("entries", len(lines))
 
 
